@@ -51,8 +51,9 @@ namespace c17
   // ---------------------------------------------------------------------------------------------------
   // TSan report hook (tsan flavour only): count reports instead of relying on the exit code (vf children _exit)
   // ---------------------------------------------------------------------------------------------------
-  inline std::atomic<int>& tsan_reports() { static std::atomic<int> n{0}; return n; }
-  inline std::string& tsan_first() { static std::string s; return s; }
+  // (defined once in c17_sched.cpp; c17_main.cpp's __tsan_on_report hook fills them)
+  std::atomic<int>& tsan_reports();
+  std::string& tsan_first();
 
   // ---------------------------------------------------------------------------------------------------
   // mesh description (shape independent storage)
@@ -142,8 +143,10 @@ namespace c17
   template<> struct ShapeTag<Shape::Simplex<2>> { static const char* n() { return "tria"; } };
 
   /// mesh generator: class first, then sizes (0 on the tape = one cell, plain grid, identity numbering)
-  template<typename Shape_> MeshSpec gen_mesh(Tape& t, int max_cells)
+  template<typename Shape_> MeshSpec gen_mesh(Tape& t, int max_cells, bool boost = false)
   {
+    // boost: even at small rapidcheck sizes the size ranges span at least half of their maximum (threaded targets)
+    auto szd = [&](int lo, int hi) { return t.sized(lo, hi, boost ? std::max(2, (hi - lo) / 2) : 2); };
     constexpr int dim = Shape_::dimension; constexpr bool simplex = (Shape::FaceTraits<Shape_, 0>::count == dim + 1) && dim > 1;
     MeshSpec m;
     auto lim = [&](int cap) { return std::max(1, std::min(cap, max_cells)); };
@@ -153,18 +156,18 @@ namespace c17
       if(cls == 0)
       {
         int side = std::max(1, int(std::sqrt(double(max_cells) / 2.0)));
-        int nx = t.sized(1, side), ny = t.sized(1, side); bool criss = t.flag();
+        int nx = szd(1, side), ny = szd(1, side); bool criss = t.flag();
         m = tria_grid(nx, ny, criss); m.cls = "tgrid"; m.desc.set("nx", nx); m.desc.set("ny", ny); m.desc.set("criss", criss);
       }
       else
       {
-        bool closed = (cls == 1); int n = t.sized(closed ? 3 : 1, std::max(closed ? 3 : 1, lim(24)));
+        bool closed = (cls == 1); int n = szd(closed ? 3 : 1, std::max(closed ? 3 : 1, lim(24)));
         m = tria_fan(n, closed); m.cls = closed ? "fan-closed" : "fan-open"; m.desc.set("n", n);
       }
     }
     else if(dim == 1)
     {
-      bool ring = t.flag(1, 4); int nn = t.sized(ring ? 3 : 1, std::max(ring ? 3 : 1, lim(4096)));
+      bool ring = t.flag(1, 4); int nn = szd(ring ? 3 : 1, std::max(ring ? 3 : 1, lim(4096)));
       int blocks = t.pick({ 5, 1, 1 }) + 1; nn = std::max(ring ? 3 : 1, nn / blocks);
       int n[3] = { nn, 1, 1 }; m = hyper_grid(1, n, ring, blocks); m.cls = ring ? "ring" : "line"; m.desc.set("n", nn); m.desc.set("blocks", blocks);
     }
@@ -173,9 +176,9 @@ namespace c17
       int cls = t.pick({ 5, 2, 2, 1 });  // grid, strip, annulus, blocks
       int side = std::max(1, int(std::sqrt(double(max_cells))));
       int nx, ny, blocks = 1; bool per = false;
-      if(cls == 1) { nx = t.sized(1, lim(256)); ny = 1; m.cls = "strip"; }
-      else if(cls == 2) { nx = t.sized(3, std::max(3, side)); ny = t.sized(1, std::max(1, side / 2)); per = true; m.cls = "annulus"; }
-      else { nx = t.sized(1, side); ny = t.sized(1, side); m.cls = "grid"; }
+      if(cls == 1) { nx = szd(1, lim(256)); ny = 1; m.cls = "strip"; }
+      else if(cls == 2) { nx = szd(3, std::max(3, side)); ny = szd(1, std::max(1, side / 2)); per = true; m.cls = "annulus"; }
+      else { nx = szd(1, side); ny = szd(1, side); m.cls = "grid"; }
       if(cls == 3) { blocks = t.range(2, 3); nx = std::max(1, nx / 2); m.cls = "blocks"; }
       int n[3] = { nx, ny, 1 }; std::string cl = m.cls; m = hyper_grid(2, n, per, blocks); m.cls = cl;
       m.desc.set("nx", nx); m.desc.set("ny", ny); m.desc.set("blocks", blocks);
@@ -183,7 +186,7 @@ namespace c17
     else
     {
       int side = std::max(1, int(std::cbrt(double(max_cells)) + 0.5));
-      int n[3] = { t.sized(1, side), t.sized(1, side), t.sized(1, side) };
+      int n[3] = { szd(1, side), szd(1, side), szd(1, side) };
       m = hyper_grid(3, n, false, 1); m.cls = "hgrid"; m.desc.set("nx", n[0]); m.desc.set("ny", n[1]); m.desc.set("nz", n[2]);
     }
     uint32_t ps = t.flag(1, 3) ? t.raw() : 0u;
@@ -576,6 +579,63 @@ namespace c17
     case 4: c.maxw = 1; break; default: c.maxw = 0; break;
     }
     return c;
+  }
+
+  /// mesh permutation choice (0 none, 1 colored, 2 cmk, 3 cmk reversed, 4 random, 5 lexicographic)
+  inline int choose_perm(Tape& t, const MeshSpec& ms)
+  {
+    int mesh_perm = t.pick({ 6, 3, 1, 1, 1, 1 });
+    // domain fact (not C17's subject, bycatch noted in findings/C17.md): the algebraic Cuthill-McKee mesh permutations
+    // (MeshPermutation::create_cmk -> CuthillMcKee::compute with RootType::minimum_degree on an 'injectify' graph that
+    // keeps duplicates and self-loops) abort with "No root node found!" as soon as every unprocessed cell has
+    // degree-with-duplicates >= num_cells + 1, e.g. a 2-cell line; cmk permutations are only requested when no cell
+    // reaches that degree; the same abort was seen on disconnected meshes (3 blocks of 2 line cells, all degrees 3),
+    // so multi-block meshes keep their numbering as well
+    if((mesh_perm == 2 || mesh_perm == 3) && ms.desc.geti("blocks", 1) > 1) mesh_perm = 0;
+    if(mesh_perm == 2 || mesh_perm == 3)
+    {
+      Adj a0(ms);
+      for(Index cl = 0; cl < ms.nc() && mesh_perm != 0; ++cl)
+      {
+        std::size_t deg = 0; for(int l = 0; l < ms.nvc; ++l) deg += a0.cells_at_vert[ms.cells[cl * Index(ms.nvc) + Index(l)]].size();
+        if(deg >= std::size_t(ms.nc()) + 1u) mesh_perm = 0;
+      }
+    }
+    return mesh_perm;
+  }
+
+  template<typename Mesh_> void apply_perm(Mesh_& mesh, MeshSpec& ms, int mesh_perm)
+  {
+    constexpr int dim = Mesh_::shape_dim;
+    if(mesh_perm != 0)
+    {
+      mesh.create_permutation(perm_of(mesh_perm));
+      // cell/vertex numbers changed: read the effective numbering back (subset, adjacency and checksums use it)
+      const auto& idx = mesh.template get_index_set<dim, 0>(); const auto& vtx = mesh.get_vertex_set();
+      for(Index cl = 0; cl < ms.nc(); ++cl) for(int l = 0; l < ms.nvc; ++l) ms.cells[cl * Index(ms.nvc) + Index(l)] = idx[cl][l];
+      for(Index v = 0; v < ms.nv(); ++v) for(int d = 0; d < dim; ++d) ms.xy[v * Index(dim) + Index(d)] = vtx[v][d];
+    }
+    ms.desc.set("mesh_perm", perm_name(mesh_perm));
+  }
+
+  /// bounded vertex jitter (2D): every vertex moves by at most 0.15 x the distance to its nearest cell-mate, which
+  /// keeps the generated quads convex and positively oriented
+  inline void jitter2d(MeshSpec& ms, uint32_t seed)
+  {
+    if(seed == 0 || ms.dim != 2) return;
+    std::vector<double> rad(ms.nv(), 1e300);
+    for(Index c = 0; c < ms.nc(); ++c) for(int i = 0; i < ms.nvc; ++i) for(int j = 0; j < ms.nvc; ++j)
+    {
+      Index a = ms.cells[c * Index(ms.nvc) + Index(i)], b = ms.cells[c * Index(ms.nvc) + Index(j)]; if(a == b) continue;
+      double d = std::hypot(ms.xy[2 * a] - ms.xy[2 * b], ms.xy[2 * a + 1] - ms.xy[2 * b + 1]); rad[a] = std::min(rad[a], d);
+    }
+    Rng r(seed);
+    for(Index v = 0; v < ms.nv(); ++v)
+    {
+      double ang = 6.283185307179586 * double(r.below(4096)) / 4096.0, len = 0.15 * rad[v] * double(r.below(1024)) / 1024.0;
+      if(rad[v] > 1e299) continue;
+      ms.xy[2 * v] += len * std::cos(ang); ms.xy[2 * v + 1] += len * std::sin(ang);
+    }
   }
 
   inline std::string workers_class(std::size_t nw) { return nw == 0 ? "workers:0" : nw == 1 ? "workers:1" : nw == 2 ? "workers:2" : nw <= 4 ? "workers:3-4" : nw <= 8 ? "workers:5-8" : "workers:9+"; }
